@@ -24,7 +24,12 @@ def run_one(m):
         if 'patch' in m:
             r0 = subprocess.run(['patch', '-p1', '-s', '-i', os.path.join(ROOT, m['patch'])], cwd=d, capture_output=True, text=True)
             if r0.returncode != 0:
-                return 1, 'MUTANT-STALE %s patch does not apply: %s' % (m['id'], r0.stdout[-200:])
+                if not m.get('edits'):
+                    return 1, 'MUTANT-STALE %s patch does not apply: %s' % (m['id'], r0.stdout[-200:])
+                # later repairs touched the same lines: start again from the clean tree and apply the re-anchored edit
+                subprocess.run(['rsync', '-a', '--delete', '--exclude', '.git', '/repo/', d + '/'], check=True)
+            else:
+                m = dict(m, edits=[])
         for e in m.get('edits', []):
             p = os.path.join(d, e['file'])
             s = open(p).read()
